@@ -25,6 +25,7 @@ partial def showH (e : Exp) : String :=
     | .divN e n => s!"div({showH e},{n})"
     | .mulN e n => s!"mul({showH e},{n})"
     | .toFloat e => s!"rad({showH e})"
+    | .res j => s!"r{j}"
 
 def showVal (kinds : List PTy) : Exp → String
   | .p i =>
@@ -35,6 +36,7 @@ def showVal (kinds : List PTy) : Exp → String
     | .angle => s!"tup(p{i})"
     | .other => s!"?{i}"
   | .toFloat e => s!"rad({showH e})"
+  | .res j => s!"r{j}"
   | e => s!"tup({showH e})"
 
 def showArg (kinds : List PTy) : OpArg → String
@@ -84,9 +86,16 @@ def handle (line : String) : String :=
         match emit Gen.table fuel m f (js.map Exp.p) with
         | none => "none"
         | some es =>
-          let outs := (List.range kinds.length).filter (fun i => kinds.getD i .other == .qubit)
+          -- function outputs that are caller qubits: first the returned ones (Guppy body), then the borrowed ones
+          let returned := match returnsOf Gen.table m f (js.map Exp.p) with
+            | some rs => rs.filterMap fun e => match e with
+                | .p i => (match kinds.getD i .other with
+                    | .qubit => some i | .qubitOwned => some i | _ => none)
+                | _ => none
+            | none => []
+          let borrowed := (List.range kinds.length).filter (fun i => kinds.getD i .other == .qubit)
           ";".intercalate (es.map (showEmitted kinds)) ++ " -> " ++
-            " ".intercalate (outs.map fun i => s!"q{i}")
+            " ".intercalate ((returned ++ borrowed).map fun i => s!"q{i}")
   | "angle" :: m :: xs =>
     match xs.mapM parseRat with
     | some xs => handleAngle m xs
